@@ -44,9 +44,10 @@ def seqInvRev (run : Op α → Dir → List (Coor α) → List (Coor α) × Nat)
       seqInvRev run rest (r.1, minCount s.2 r.2)
 
 /-- no step of the list is one of the stack related pseudo operators (`push`, `pop`, `stack`),
-which have no meaning as stand-alone operators (they are the subject of C12) -/
+which have no meaning as stand-alone operators (they are the subject of C12); a nested pipeline
+never is one, whatever its text starts with (`stackClass`) -/
 def StackFree (actionOf : ActionOf α) (steps : List (Op α)) : Prop :=
-  ∀ s ∈ steps, classify actionOf s.node.params = none
+  ∀ s ∈ steps, stackClass actionOf s = none
 
 theorem runFwd_eq_seq (sem : LeafSem α) (nan : α) (actionOf : ActionOf α) (steps : List (Op α))
     (h : StackFree actionOf steps) (cols : Stack.Cols α) (data : List (Coor α)) (n : Option Nat) :
@@ -56,7 +57,7 @@ theorem runFwd_eq_seq (sem : LeafSem α) (nan : α) (actionOf : ActionOf α) (st
   induction steps generalizing data n with
   | nil => rfl
   | cons step rest ih =>
-    have hs : classify actionOf step.node.params = none := h step (List.mem_cons_self ..)
+    have hs : stackClass actionOf step = none := h step (List.mem_cons_self ..)
     have hr : StackFree actionOf rest := fun s hs' => h s (List.mem_cons_of_mem _ hs')
     by_cases ho : step.node.params.flagSet (S "omit_fwd") = true
     · simp only [runFwd, seqFwd, ho, if_true]
@@ -84,7 +85,7 @@ theorem runInv_eq_seq (sem : LeafSem α) (nan : α) (actionOf : ActionOf α) (st
   induction steps generalizing data n with
   | nil => rfl
   | cons step rest ih =>
-    have hs : classify actionOf step.node.params = none := h step (List.mem_cons_self ..)
+    have hs : stackClass actionOf step = none := h step (List.mem_cons_self ..)
     have hr : StackFree actionOf rest := fun s hs' => h s (List.mem_cons_of_mem _ hs')
     rw [List.reverse_cons, happ]
     simp only [runInv]
